@@ -1617,7 +1617,24 @@ func constTableOf(arr *Term) *constTable {
 	return tb
 }
 
-func (t *constTable) lookup(idx *Term) *Term {
+// LookupConstTable is the decision-tree lookup for a table of constants given directly (index of
+// any width; indices beyond the table yield def).
+func LookupConstTable(vals []uint64, w int, def uint64, idx *Term) *Term {
+	bits := 1
+	for 1<<uint(bits) < len(vals) {
+		bits++
+	}
+	t := &constTable{w: w, def: def, bits: bits, vals: make([]uint64, 1<<uint(bits))}
+	for i := range t.vals {
+		t.vals[i] = def
+	}
+	copy(t.vals, vals)
+	return t.lookupW(idx, idx.W)
+}
+
+func (t *constTable) lookup(idx *Term) *Term { return t.lookupW(idx, IdxW) }
+
+func (t *constTable) lookupW(idx *Term, iw int) *Term {
 	var build func(lo uint64, bit int) *Term
 	build = func(lo uint64, bit int) *Term {
 		span := uint64(1) << uint(bit)
@@ -1635,8 +1652,8 @@ func (t *constTable) lookup(idx *Term) *Term {
 		return Ite(b, build(lo+span/2, bit-1), build(lo, bit-1))
 	}
 	tree := build(0, t.bits)
-	if t.bits >= IdxW {
+	if t.bits >= iw {
 		return tree
 	}
-	return Ite(Ult(idx, Const(IdxW, uint64(1)<<uint(t.bits))), tree, Const(t.w, t.def))
+	return Ite(Ult(idx, Const(iw, uint64(1)<<uint(t.bits))), tree, Const(t.w, t.def))
 }
